@@ -14,6 +14,7 @@ def run(tier, seed, replay):
     texts = [tg.program(rng, nlines=rng.randrange(0, 12)) for _ in range(n)]
     texts += tg.repo_corpus()
     texts += tg.edge_texts()
+    texts += tg.long_texts(rng, tier)[:6]
     shapes = tg.all_shapes()
     step = 6 if tier == "quick" else 1
     texts += [tg.shape_program(s, tg.CONTEXTS[i % len(tg.CONTEXTS)], i % 4) for i, s in enumerate(shapes) if i % step == 0]
